@@ -108,11 +108,14 @@ class C13(Check):
             return dict(xyz=xyz, z=z, w=w)
 
         tables = dict(
-            ref=points(rng.integers(10, 40, P), True, bool(rng.random() < 0.6)),
+            ref=points(rng.integers(10, 40, P), True, bool(rng.random() < 0.6) or tr == "split"),
             unk=points(rng.integers(10, 50, P), False, bool(rng.random() < 0.6)),
             rr=points(rng.integers(15, 50, P), True, False),
             ur=points(rng.integers(15, 50, P), False, False),
         )
+        if tr == "split" and case_bits(case, "dynamic-range") % 2 == 0:
+            # inverse-variance-like weights spanning many decades: every object counts, however light
+            tables["ref"]["w"] = tables["ref"]["w"] * 10.0 ** rng.uniform(-5, 4, len(tables["ref"]["w"]))
         # margin filter on pair separations (all pairs that can be counted)
         def near_edge(a, b):
             ra1, d1 = gen.xyz_to_radec(a["xyz"])
@@ -151,6 +154,11 @@ class C13(Check):
                     first = bool(t.get("extra_first"))
                     parts = [t["extra"], xyz_] if first else [xyz_, t["extra"]]
                     zex = np.full(len(t["extra"]), 5.0)
+                    # the regular rows are weighted, the 70000 further ones carry the weight 1 exactly (a unit-weight
+                    # sample concatenated with a weighted one)
+                    wreg = 0.5 + (np.floor(np.abs(xyz_[:, 0]) * 1e6) % 7) / 4.0  # a property of the object, not of its row
+                    wex = np.ones(len(t["extra"]))
+                    w_ = np.concatenate([wex, wreg] if first else [wreg, wex])
                     xyz_ = np.concatenate(parts)
                     z_ = np.concatenate([zex, z_] if first else [z_, zex])
                 ra, dec = gen.xyz_to_radec(xyz_)
